@@ -346,3 +346,8 @@ def violating_states(r):
         last = states[-1].split('\n\n')[0]
         res.append((inv, parse_state(last)))
     return res
+
+
+def emitted_histories(out):
+    """JSON histories printed by a specification as PrintT(<<"HIST", ToJson(hist)>>) (TLC may wrap the tuple over lines)."""
+    return sorted(set(m.replace('\\"', '"') for m in re.findall(r'"HIST",\s*"(\[.*?\])"\s*>>', out, flags=re.S)))
